@@ -25,6 +25,8 @@ class Check:
         self.known = [f for f in load_known().get('findings', []) if f['property'] == pid]
         self.known_seen = {}          # finding id -> description of the reproduced witness
         self.violations = []          # (what, scenario path)
+        self.violated_names = set()
+        self.gaps = []
         self.inconclusive = []        # reasons
         self.covers = {}              # name -> bool
         self.obligations = 0          # solver queries "pc and not property" discharged (unsat) or witnessed
@@ -41,6 +43,7 @@ class Check:
         self.functions = {}
         self.E = None
         self.release = False
+        self._witness_dir_cleaned = False
 
     # ------------------------------------------------------------------ set-up
     def engine(self):
@@ -99,6 +102,8 @@ class Check:
         harness): inside a listed region a reproduced witness is a KNOWN-FINDING, outside it is a VIOLATION.
         on_witness(model, where) -> (reproduced: bool|None, description, scenario) ; None = engine/native mismatch."""
         regions = regions or {}
+        if name in self.violated_names:
+            return False          # one confirmed violation per obligation kind is enough to fail the check
         neg = z3.Not(prop)
         self.obligations += 1
         listed = [(f, regions[f['region']]) for f in self.known if f.get('region') in regions]
@@ -144,6 +149,19 @@ class Check:
         else:
             p = self.save_scenario(name, scen)
             self.violations.append((f'{name}: {desc}', p))
+            self.violated_names.add(name)
+
+    def inductive(self, name, pc, prop):
+        """an obligation of the inductive argument only (state invariant preserved).  If it fails, the one-step result no
+        longer extends to all histories: recorded as a gap (the bounded history checks remain the alarm), never an alarm."""
+        self.obligations += 1
+        m = self.solve(list(pc) + [z3.Not(prop)])
+        if m is None:
+            self.discharged += 1
+            return True
+        if m != 'unknown' and name not in self.gaps:
+            self.gaps.append(name)
+        return False
 
     def cover(self, name, pc_list_or_bool):
         """reachability witness: must be satisfiable, else the harness is vacuous"""
@@ -157,6 +175,10 @@ class Check:
 
     def save_scenario(self, name, scen):
         d = os.path.join(prepare.WORK, 'witness', self.pid)
+        if not self._witness_dir_cleaned:
+            import shutil
+            shutil.rmtree(d, ignore_errors=True)
+            self._witness_dir_cleaned = True
         os.makedirs(d, exist_ok=True)
         safe = ''.join(c if c.isalnum() or c in '-_' else '_' for c in name)[:80]
         p = os.path.join(d, f'{safe}-{len(os.listdir(d))}.json')
@@ -198,6 +220,7 @@ class Check:
             'native_replays_mismatching': self.replays_bad,
             'known_findings_reproduced': self.known_seen,
             'inconclusive': self.inconclusive[:20],
+            'inductive_gaps': self.gaps,
             'notes': sorted(set(self.notes))[:40],
             'exhaustive': False,
             'explanation': 'states = symbolic paths explored through the MIR; transitions = MIR basic blocks executed; '
@@ -215,6 +238,8 @@ class Check:
             json.dump(ev, f, indent=1, default=str)
         for fid, desc in self.known_seen.items():
             print(f'KNOWN-FINDING: property={self.pid} {fid}: {desc}')
+        for g in self.gaps:
+            print(f'NOTE: inductive step "{g}" not preserved on this tree: the claim rests on the bounded history check only')
         for what, p in self.violations:
             print(f'VIOLATION property={self.pid} replay={p}')
             print('  ' + what)
@@ -298,3 +323,13 @@ def main(run):
         print('INCONCLUSIVE: the check itself failed (engine error above)')
         rc = 2
     sys.exit(rc)
+
+
+def generic_replay(ck, path):
+    """./check <id> --replay <scenario.json>: run the saved scenario(s) natively and print what the real code did"""
+    ck.engine()
+    sc = json.load(open(path))
+    scs = sc if isinstance(sc, list) else [sc]
+    outs = ck.replay(scs)
+    print(json.dumps(outs, indent=1))
+    return 0
